@@ -238,6 +238,10 @@ def _shard(shard, nshards, tier, seed):
                 uses_ir = ins.op in ('add16', 'adcsbc16', 'incdec16', 'ld_sp_rr', 'push', 'rst', 'ret', 'djnz', 'ld_ir_a', 'ld_a_ir', 'block')
                 # block instructions: also the terminating cases (BC = 1, B = 1) and, for CPI/CPD/CPIR/CPDR, A = (HL)
                 variants = ((rname, rset, False),)
+                if ins.op in ('call', 'rst', 'push', 'pop', 'ret', 'retn', 'ex_sp'):
+                    # the stack wrapped round the end of memory: SP-1/SP-2 (or SP+1) on the other side of 0x0000
+                    variants += ((rname + '+sp0', dict(rset, SP=0x0000), False), (rname + '+sp1', dict(rset, SP=0x0001), False),
+                                 (rname + '+spFFFF', dict(rset, SP=0xFFFF), False))
                 if ins.op == 'block':
                     variants += ((rname + '+bc1', dict(rset, B=0, C=1), False), (rname + '+b1', dict(rset, B=1), False),
                                  (rname + '+match', rset, True), (rname + '+match+bc1', dict(rset, B=0, C=1), True),
@@ -288,7 +292,7 @@ def run(tier, seed):
     meta = dict(
         rule='(i) both delay tables complete: one NOP in contended memory at every frame position (69888 + 2 x 70908); (ii) every opcode slot x 2 '
              'operand fillings (+ displacement +5 for DD/FD slots, + nn = 0x3FFF/0x7FFF/0xBFFF for LD through (nn)) x PC placement {{uncontended, contended, straddling 0x7FFE/0xBFFE, 0xC000}} x register/stack/port placement sets x I '
-             '(for instructions with refresh-address cycles) x both condition outcomes (block instructions: also BC=1, B=1, B=0x40/0x80/0xC0 and A=(HL)) x frame positions ({} per machine: every phase of the pattern '
+             '(for instructions with refresh-address cycles) x both condition outcomes (block instructions: also BC=1, B=1, B=0x40/0x80/0xC0 and A=(HL); stack instructions: also SP = 0, 1, 0xFFFF) x frame positions ({} per machine: every phase of the pattern '
              'at both ends of the window, first/middle/last line, frame edges) on 48K, 128K even bank, 128K odd bank; oracle = z80ref bus cycles + '
              'ula.delay. states = distinct (machine, op class, placement) classes; non-trivial = distinct slots per machine'.format(
                  len(positions('48K', tier))),
